@@ -1,6 +1,7 @@
 package main
 
 import (
+	"fmt"
 	"math"
 
 	"gonum.org/v1/gonum/internal/verif/vlib"
@@ -27,7 +28,15 @@ type sweepStats struct {
 	queries, searches int64
 	tieAtK            int64 // NKeeper queries where the k-th and (k+1)-th distances tie
 	radiusOnBoundary  int64 // DistKeeper queries with a point exactly on the radius
-	sawFail           bool
+	relaxIdentity     bool // a known identity defect was established for this tree: compare values only
+	// roundingClass: set for the vantage-point tree only. A DistKeeper(r)
+	// result that lacks nothing but points at distance exactly r, for an r that
+	// is not a half-integer (an inexact square root), is the known rounding
+	// defect of the triangle-inequality pruning; it is counted and reported
+	// once per case by the caller instead of stopping the sweep.
+	roundingClass bool
+	knownRounding int64
+	knownRoundMsg string
 }
 
 // sweep runs Nearest, NearestSet(NKeeper(k)) for k in ks(n) and
@@ -69,6 +78,24 @@ func sweep(t *vlib.T, ix index, pts [][]float64, queries [][]float64, ks []int, 
 
 		check := func(kind string, par float64, got []hit, want []float64) {
 			st.searches++
+			if st.roundingClass && kind == "DistKeeper" && len(got) < len(want) && par*2 != math.Floor(par*2) {
+				onlyBoundary := true
+				for i := range want {
+					if i < len(got) && (got[i].nilComp || got[i].dist != want[i]) {
+						onlyBoundary = false
+					}
+					if i >= len(got) && want[i] != par {
+						onlyBoundary = false
+					}
+				}
+				if onlyBoundary {
+					st.knownRounding++
+					if st.knownRoundMsg == "" {
+						st.knownRoundMsg = fmt.Sprintf("%s q=%v DistKeeper(%v) retained %d elements %v, brute force has %d: %v (points exactly at the radius are pruned by a rounding error in d-r <= Radius)", ctx, q, par, len(got), hitDists(got), len(want), want)
+					}
+					return
+				}
+			}
 			if len(got) != len(want) {
 				t.Failf("%s q=%v %s(%v) retained %d elements %v, brute force has %d: %v", ctx, q, kind, par, len(got), hitDists(got), len(want), want)
 				return
@@ -87,7 +114,7 @@ func sweep(t *vlib.T, ix index, pts [][]float64, queries [][]float64, ks []int, 
 					t.Failf("%s q=%v %s(%v) element %d is not a stored element", ctx, q, kind, par, i)
 					return
 				}
-				if used[h.id] == stamp {
+				if used[h.id] == stamp && !st.relaxIdentity {
 					t.Failf("%s q=%v %s(%v) retained stored element #%d twice", ctx, q, kind, par, h.id)
 					return
 				}
